@@ -51,7 +51,18 @@ unsafe impl<L: Lockable> RawLock for RetryingLockCollection<L> {
 
 		// these will be unlocked in case of a panic
 		let first_index = Cell::new(0);
+		// whether `locks[first_index]` is currently locked
+		let first_locked = Cell::new(false);
+		// every lock before this index is currently locked
 		let locked = Cell::new(0);
+		// the locks which are held right now
+		let held = || {
+			let mut held = locks[0..locked.get()].to_vec();
+			if first_locked.get() && first_index.get() >= locked.get() {
+				held.push(locks[first_index.get()]);
+			}
+			held
+		};
 		handle_unwind(
 			|| unsafe {
 				'outer: loop {
@@ -59,9 +70,11 @@ unsafe impl<L: Lockable> RawLock for RetryingLockCollection<L> {
 					// the same lock to be unlocked
 					// safety: we have the thread key
 					locks[first_index.get()].raw_write();
+					first_locked.set(true);
 					for (i, lock) in locks.iter().enumerate() {
 						if i == first_index.get() {
 							// we've already locked this one
+							locked.set(i + 1);
 							continue;
 						}
 
@@ -71,18 +84,16 @@ unsafe impl<L: Lockable> RawLock for RetryingLockCollection<L> {
 						// immediately after, causing a panic
 						// safety: we have the thread key
 						if lock.raw_try_write() {
-							locked.set(locked.get() + 1);
+							locked.set(i + 1);
 						} else {
-							// safety: we already locked all of these
-							attempt_to_recover_writes_from_panic(&locks[0..i]);
-							if first_index.get() >= i {
-								// safety: this is already locked and can't be
-								//         unlocked by the previous loop
-								locks[first_index.get()].raw_unlock_write();
-							}
-
-							// nothing is locked anymore
+							// the rollback unlocks everything, even if it panics
+							// halfway, so nothing counts as locked anymore
+							let to_unlock = held();
 							locked.set(0);
+							first_locked.set(false);
+
+							// safety: we already locked all of these
+							attempt_to_recover_writes_from_panic(&to_unlock);
 
 							// call lock on this to prevent a spin loop
 							first_index.set(i);
@@ -94,12 +105,8 @@ unsafe impl<L: Lockable> RawLock for RetryingLockCollection<L> {
 					break;
 				}
 			},
-			|| {
-				utils::attempt_to_recover_writes_from_panic(&locks[0..locked.get()]);
-				if first_index.get() >= locked.get() {
-					locks[first_index.get()].raw_unlock_write();
-				}
-			},
+			// safety: these are exactly the locks which are held
+			|| utils::attempt_to_recover_writes_from_panic(&held()),
 		)
 	}
 
@@ -150,32 +157,42 @@ unsafe impl<L: Lockable> RawLock for RetryingLockCollection<L> {
 			return;
 		}
 
-		let locked = Cell::new(0);
 		let first_index = Cell::new(0);
+		// whether `locks[first_index]` is currently locked
+		let first_locked = Cell::new(false);
+		// every lock before this index is currently locked
+		let locked = Cell::new(0);
+		// the locks which are held right now
+		let held = || {
+			let mut held = locks[0..locked.get()].to_vec();
+			if first_locked.get() && first_index.get() >= locked.get() {
+				held.push(locks[first_index.get()]);
+			}
+			held
+		};
 		handle_unwind(
 			|| 'outer: loop {
 				// safety: we have the thread key
 				locks[first_index.get()].raw_read();
+				first_locked.set(true);
 				for (i, lock) in locks.iter().enumerate() {
 					if i == first_index.get() {
+						locked.set(i + 1);
 						continue;
 					}
 
 					// safety: we have the thread key
 					if lock.raw_try_read() {
-						locked.set(locked.get() + 1);
+						locked.set(i + 1);
 					} else {
-						// safety: we already locked all of these
-						attempt_to_recover_reads_from_panic(&locks[0..i]);
-
-						if first_index.get() >= i {
-							// safety: this is already locked and can't be unlocked
-							//         by the previous loop
-							locks[first_index.get()].raw_unlock_read();
-						}
-
-						// these are no longer locked
+						// the rollback unlocks everything, even if it panics
+						// halfway, so nothing counts as locked anymore
+						let to_unlock = held();
 						locked.set(0);
+						first_locked.set(false);
+
+						// safety: we already locked all of these
+						attempt_to_recover_reads_from_panic(&to_unlock);
 
 						// don't go into a spin loop, wait for this one to lock
 						first_index.set(i);
@@ -186,12 +203,8 @@ unsafe impl<L: Lockable> RawLock for RetryingLockCollection<L> {
 				// safety: we locked all the data
 				break;
 			},
-			|| {
-				utils::attempt_to_recover_reads_from_panic(&locks[0..locked.get()]);
-				if first_index.get() >= locked.get() {
-					locks[first_index.get()].raw_unlock_read();
-				}
-			},
+			// safety: these are exactly the locks which are held
+			|| utils::attempt_to_recover_reads_from_panic(&held()),
 		)
 	}
 
